@@ -114,6 +114,11 @@ pub struct Scope {
     type_aliases: IndexMap<String, u32>,
     /// The map of resource names to their encoded indexes.
     resources: IndexMap<String, u32>,
+    /// The map of resources to their encoded indexes.
+    ///
+    /// Two resources of the same name may be in scope at once (e.g. used from
+    /// two interfaces, one of them renamed); this map tells them apart.
+    resource_ids: HashMap<ResourceId, u32>,
     /// The types this scope's interface uses from other interfaces.
     used_types: HashSet<Type>,
     /// The encodable for this scope.
@@ -749,16 +754,23 @@ impl<'a> TypeEncoder<'a> {
         index
     }
 
+    fn resource_index(&self, state: &State, res: ResourceId) -> u32 {
+        match state.current.resource_ids.get(&res) {
+            Some(index) => *index,
+            None => state.current.resources[self.0[res].name.as_str()],
+        }
+    }
+
     fn borrow(&self, state: &mut State, res: ResourceId) -> u32 {
         assert!(!state.scopes.is_empty());
-        let res = state.current.resources[self.0[res].name.as_str()];
+        let res = self.resource_index(state, res);
         let index = state.current.encodable.type_count();
         state.current.encodable.ty().defined_type().borrow(res);
         index
     }
 
     fn own(&self, state: &mut State, res: ResourceId) -> u32 {
-        let res = state.current.resources[self.0[res].name.as_str()];
+        let res = self.resource_index(state, res);
         let index = state.current.encodable.type_count();
         state.current.encodable.ty().defined_type().own(res);
         index
@@ -854,7 +866,9 @@ impl<'a> TypeEncoder<'a> {
 
     pub fn import_resource(&self, state: &mut State, name: &str, id: ResourceId) -> u32 {
         if let Some(index) = state.current.resources.get(name) {
-            return *index;
+            if state.current.resource_ids.get(&id) == Some(index) {
+                return *index;
+            }
         }
 
         log::debug!("encoding import of resource `{name}`");
@@ -924,6 +938,7 @@ impl<'a> TypeEncoder<'a> {
         };
 
         state.current.resources.insert(resource.name.clone(), index);
+        state.current.resource_ids.insert(id, index);
         index
     }
 
@@ -967,7 +982,9 @@ impl<'a> TypeEncoder<'a> {
         log::debug!("encoding export of resource `{name}`");
 
         if let Some(existing) = state.current.resources.get(name) {
-            return *existing;
+            if state.current.resource_ids.get(&id) == Some(existing) {
+                return *existing;
+            }
         }
 
         let resource = &self.0[id];
@@ -978,9 +995,25 @@ impl<'a> TypeEncoder<'a> {
             log::debug!("encoded outer alias for resource `{name}` as type index {index}");
             index
         } else if let Some(alias) = resource.alias {
-            // This is an alias to another resource at the same scope
-            let index = state.current.resources
-                [self.0[self.0.resolve_resource(alias.source)].name.as_str()];
+            // This is an alias to another resource at the same scope: the
+            // resolved source, or else the nearest resource of the alias chain
+            // that is in scope (e.g. a used alias of a resource that is not used)
+            let resolved = self.0.resolve_resource(alias.source);
+            let mut source = alias.source;
+            let index = loop {
+                let id = if state.current.resource_ids.contains_key(&resolved) {
+                    resolved
+                } else {
+                    source
+                };
+                if let Some(index) = state.current.resource_ids.get(&id) {
+                    break *index;
+                }
+                match self.0[source].alias {
+                    Some(alias) => source = alias.source,
+                    None => break state.current.resources[self.0[resolved].name.as_str()],
+                }
+            };
             let index =
                 Self::export_type(state, name, ComponentTypeRef::Type(TypeBounds::Eq(index)));
             log::debug!("encoded alias for resource `{name}` as type index {index}");
@@ -994,6 +1027,7 @@ impl<'a> TypeEncoder<'a> {
         };
 
         state.current.resources.insert(resource.name.clone(), index);
+        state.current.resource_ids.insert(id, index);
         index
     }
 
